@@ -9,7 +9,7 @@ EXPR = '__import__("os").environ.get("PYTHONPATH", "/repo").split(":")[0]'
 
 
 def portable(text):
-    return re.sub(r'([\'"])/tmp/seed/wt[23]?_C\d\d/?\1', EXPR, text)
+    return re.sub(r'([\'"])/tmp/seed/wt[234]?_C\d\d/?\1', EXPR, text)
 
 
 if __name__ == '__main__':
